@@ -68,6 +68,17 @@ func (x *FnExec) call(in ssa.Instruction, c *ssa.CallCommon, st *State) (Val, bo
 			x.eng.usedPure(calleeName)
 			return x.packResults(sig, rs), true
 		}
+		if x.eng.cs.KeeperIfaces[typeKey(c.Value.Type())] {
+			// a keeper interface: works on stores, assumed not to touch caller-visible memory; may panic
+			pb := x.ctx.Fresh("panics", SBool)
+			x.panicIf(st, pb, "keeper interface call "+shortName(calleeName)+" may panic")
+			rs := make([]Val, 0)
+			for _, t := range resultTypes(sig) {
+				rs = append(rs, x.freshVal("r", t, true))
+			}
+			x.ctx.Note("assumed: keeper interface method " + shortName(calleeName) + " does not modify memory visible to the caller (stores only)")
+			return x.packResults(sig, rs), true
+		}
 		x.ctx.Note(fmt.Sprintf("%s: interface call %s without contract: all memory havocked, result unknown", x.fnName(), shortName(calleeName)))
 		return x.unknownCall(sig, st, calleeName), true
 	}
